@@ -30,6 +30,9 @@ extern void sim_park_cond(int (*cond)(void *), void *arg, int64_t deadline_ns);
 #define MAX_CHILD 8192
 #define PID_BASE 100000
 #define MAX_OPS 32
+#define MAX_INHERIT 32
+#define INHERIT_BASE 8000
+extern int sim_fd_is_tracked(int fd);
 
 typedef struct {
     int used;
@@ -42,6 +45,10 @@ typedef struct {
     char ops[MAX_OPS][24];
     uint64_t in_bytes, in_sum;
     uint64_t out_off[3];
+    /* descriptors the child inherited because they were not close-on-exec when it was spawned: held open
+     * (duplicates above INHERIT_BASE, invisible to the descriptor accounting) until the child exits */
+    int ninherited;
+    int inherited[MAX_INHERIT];
 } Child;
 
 static Child children[MAX_CHILD];
@@ -157,6 +164,8 @@ static int actor_ready(void *p) {
 }
 
 static void actor_close_all(Child *c) {
+    for (int i = 0; i < c->ninherited; i++) __real_close(c->inherited[i]);
+    c->ninherited = 0;
     for (int i = 0; i < 3; i++) {
         if (c->fds[i] >= 0) {
             sim_fd_note_close(c->fds[i]);
@@ -360,6 +369,23 @@ static int spawn_common(pid_t *pid, const char *path, const posix_spawn_file_act
         }
     }
     for (int b = 0; b < 3; b++) c->fds[b] = tab[b];
+    /* what exec would leave open in a real child: every descriptor of the process that is not close-on-exec
+     * and that the file actions do not close. The actor never uses them; holding them open is the point
+     * (a pipe's or socket's peer does not see end-of-stream while any copy is open). */
+    for (int fd = 3; fd < 4096 && c->ninherited < MAX_INHERIT; fd++) {
+        if (!sim_fd_is_tracked(fd)) continue;
+        int fl = fcntl(fd, F_GETFD);
+        if (fl < 0 || (fl & FD_CLOEXEC)) continue;
+        int closed_by_action = 0;
+        if (fi >= 0)
+            for (int k = 0; k < fas[fi].n; k++)
+                if (fas[fi].act[k].kind == 1 && fas[fi].act[k].a == fd) closed_by_action = 1;
+        if (closed_by_action) continue;
+        int d = fcntl(fd, F_DUPFD_CLOEXEC, INHERIT_BASE);
+        if (d >= 0) {
+            c->inherited[c->ninherited++] = d;
+        }
+    }
     int n = 0;
     for (int i = 1; argv[i] && n < MAX_OPS; i++) {
         strncpy(c->ops[n], argv[i], sizeof c->ops[n] - 1);
@@ -369,6 +395,7 @@ static int spawn_common(pid_t *pid, const char *path, const posix_spawn_file_act
     int idx = nchildren++;
     *pid = PID_BASE + idx;
     sim_hist("!child", "spawn %d nops=%d in=%d out=%d err=%d", idx, n, tab[0] >= 0, tab[1] >= 0, tab[2] >= 0);
+    if (c->ninherited) sim_hist("!child", "inherit %d %d", idx, c->ninherited);
     pthread_attr_t at;
     pthread_attr_init(&at);
     pthread_attr_setdetachstate(&at, PTHREAD_CREATE_DETACHED);
